@@ -2056,6 +2056,24 @@ fn sig_class(cls: &str) -> String {
 /// Vectors the code documents as shape-validated at circuit-build time
 /// (`validate_proof_shape` in verifier/stark.rs, batch_stark.rs 371-519, fri/verifier.rs
 /// 1408-1518), as class suffixes of the bundle JSON.
+/// Stable rendering of an operator for the baseline key.
+fn golden_op(op: &Op) -> String {
+    serde_json::to_string(op).unwrap_or_default()
+}
+
+/// Keys `config|path|operator` of the single alterations that the recorded tree rejects at build
+/// time (recorded with `C15_WRITE_GOLDEN=<dir>`, see tools/c15/write_golden.sh).
+fn golden() -> &'static std::collections::HashSet<String> {
+    static G: std::sync::OnceLock<std::collections::HashSet<String>> = std::sync::OnceLock::new();
+    G.get_or_init(|| {
+        let v: Value = serde_json::from_str(include_str!("c15_golden.json")).unwrap_or(Value::Null);
+        v.get("build_rejected")
+            .and_then(|a| a.as_array())
+            .map(|a| a.iter().filter_map(|x| x.as_str().map(String::from)).collect())
+            .unwrap_or_default()
+    })
+}
+
 fn shape_validated(kind: Kind, cls: &str) -> bool {
     // HidingFriPcs proofs are `(random opened values, FRI proof)`: `opening_proof[]...`
     let cls = &cls.replace("opening_proof[].", "opening_proof.");
@@ -2287,6 +2305,46 @@ fn oracle_core(known: &[String], c: &Case, singles: &std::cell::RefCell<Vec<Muta
                 describe()
             ),
         );
+    }
+    // (iii-b) recorded baseline: every single alteration that the recorded tree rejects while the
+    // circuit is being BUILT (allocation / verify_*_circuit / build) must still be rejected there.
+    // A rejection that moves to a later stage (packing, setting inputs, running) or disappears
+    // means the builder now returns a circuit for a malformed proof.
+    if applied.len() == 1 {
+        let gkey = format!("{}|{}|{}", cfg.name, first.path, golden_op(&first.raw));
+        let build_stage = |st: &str| matches!(st, "alloc" | "verify_circuit" | "build");
+        if let Ok(dir) = std::env::var("C15_WRITE_GOLDEN") {
+            if let Pipe::Reject(r) = &ev.pipe {
+                if build_stage(r.stage) {
+                    use std::io::Write;
+                    let _ = std::fs::create_dir_all(&dir);
+                    let f = format!("{dir}/golden-{:?}.txt", std::thread::current().id());
+                    if let Ok(mut fh) = std::fs::OpenOptions::new().create(true).append(true).open(f) {
+                        let _ = writeln!(fh, "{gkey}");
+                    }
+                }
+            }
+        } else if golden().contains(&gkey) {
+            let moved = match &ev.pipe {
+                Pipe::Reject(r) if build_stage(r.stage) => None,
+                Pipe::Reject(r) => Some(format!("{}:{}", r.stage, r.variant)),
+                Pipe::Ok => Some("accepted".to_string()),
+                Pipe::Panic { .. } => None,
+            };
+            if let Some(now) = moved {
+                let full = format!("C15/rejection-moved-later:{}:{}:{now}", sig_class(&first.class), first.op);
+                return fail(
+                    rep,
+                    full,
+                    format!(
+                        "[{}] {} -> the recorded tree rejects this alteration while the verification circuit is built; now the builder returns a circuit and the outcome is `{now}`",
+                        cfg.name,
+                        describe()
+                    ),
+                );
+            }
+            rep = rep.class("baseline:still-rejected-at-build");
+        }
     }
     // (iii) documented shape validation
     if applied.len() == 1 && first.length_change && shape_validated(cfg.kind, &first.class) {
